@@ -53,6 +53,8 @@ class Summariser:
         self.member = member
         self.env = {str_param: SymStr(str_param)}
         self.cenv = {}        # locals holding constants (rows of a table)
+        self.lambdas = {}     # locals holding lambda cells of a table row
+        self.tables = {}      # locals holding literal tables (AST)
         self.localdefs = {}
         self.rejects_newline = False
 
@@ -179,6 +181,19 @@ class Summariser:
             raise AnalysisError('{}: {} is not derived from the input string'
                                 .format(self.f.fq, e.id))
         if isinstance(e, ast.Call) and isinstance(e.func, ast.Name) and \
+                e.func.id in self.lambdas and len(e.args) == 1:
+            lam = self.lambdas[e.func.id]
+            if len(lam.args.args) == 1:
+                saved = self.env.get(lam.args.args[0].arg)
+                self.env[lam.args.args[0].arg] = self.sym(e.args[0])
+                try:
+                    return self.sym(lam.body)
+                finally:
+                    if saved is None:
+                        self.env.pop(lam.args.args[0].arg, None)
+                    else:
+                        self.env[lam.args.args[0].arg] = saved
+        if isinstance(e, ast.Call) and isinstance(e.func, ast.Name) and \
                 e.func.id not in self.env:
             cv = self.cev(e.func)
             if isinstance(cv, (FuncRef, PartialConst)):
@@ -289,6 +304,12 @@ class Summariser:
             return ('raises', unparse(st))
         if isinstance(st, ast.Assign) and len(st.targets) == 1 and \
                 isinstance(st.targets[0], ast.Name):
+            if isinstance(st.value, (ast.Tuple, ast.List)) and st.value.elts \
+                    and all(isinstance(x, (ast.Tuple, ast.List))
+                            for x in st.value.elts):
+                # a literal table (rows may hold lambdas): kept as written
+                self.tables[st.targets[0].id] = st.value
+                return None
             try:
                 self.env[st.targets[0].id] = self.sym(st.value)
                 self.cenv.pop(st.targets[0].id, None)
@@ -300,10 +321,34 @@ class Summariser:
             return None
         if isinstance(st, (ast.For,)) and not st.orelse:
             # a loop over a constant table: unrolled row by row
-            rows = self.cev(st.iter)
             names = [x.id for x in (st.target.elts if isinstance(
                 st.target, (ast.Tuple, ast.List)) else [st.target])
                 if isinstance(x, ast.Name)]
+            tbl = st.iter if isinstance(st.iter, (ast.Tuple, ast.List)) \
+                else self.tables.get(st.iter.id) if isinstance(
+                    st.iter, ast.Name) else None
+            if tbl is not None and names and len(tbl.elts) <= 16 and all(
+                    isinstance(r_, (ast.Tuple, ast.List)) and
+                    len(r_.elts) == len(names) for r_ in tbl.elts):
+                # rows with lambda cells: unrolled cell by cell
+                for r_ in tbl.elts:
+                    for k, cell in zip(names, r_.elts):
+                        self.lambdas.pop(k, None)
+                        self.cenv.pop(k, None)
+                        if isinstance(cell, ast.Lambda):
+                            self.lambdas[k] = cell
+                        else:
+                            v = self.cev(cell)
+                            if v is UNKNOWN:
+                                raise AnalysisError(
+                                    '{}: table cell {} is not a constant'
+                                    .format(self.f.fq, unparse(cell)))
+                            self.cenv[k] = v
+                    r = self._block(st.body)
+                    if r is not None:
+                        return r
+                return None
+            rows = self.cev(st.iter)
             if isinstance(rows, (tuple, list)) and len(rows) <= 16 and names:
                 for row in rows:
                     if isinstance(st.target, ast.Name):
